@@ -27,6 +27,14 @@ def gen_case(rng):
     finite = rng.random() < 0.5
     # (mirrors: vertices at negative z, which the launch plane of an infinite object has to clear)
     d = lensgen.gen_lens(rng, finite_object=finite, nsurf=rng.randint(1, 8), allow_mirror=rng.random() < 0.3)
+    if rng.random() < 0.15 and len(d['fields']) >= 1:
+        # field points below the axis: all of them, or the outermost one only (the normalising maximum is radial)
+        if rng.random() < 0.5 or len(d['fields']) == 1:
+            for f in d['fields']:
+                f[0] = -f[0]
+        else:
+            k = max(range(len(d['fields'])), key=lambda i: abs(d['fields'][i][0]))
+            d['fields'][k][0] = -d['fields'][k][0]
     # vignetting table
     if rng.random() < 0.5:
         for f in d['fields']:
@@ -130,7 +138,8 @@ def predicate(ctx, optic, case, gen, w):
     except Exception:
         ctx.count('pred: no independent entrance pupil (degenerate lens)')
         return
-    maxf = float(optic.fields.max_field)
+    # the normalising field: the largest radial field value, taken from the descriptor (not from FieldGroup)
+    maxf = max(math.hypot(float(f[0]), float(f[1]) if len(f) > 1 else 0.0) for f in d['fields'])
     vx, vy = optic.fields.get_vig_factor(0.0, Hy)
     n = len(gen['x'])
     for r in range(n):
@@ -166,7 +175,7 @@ def predicate(ctx, optic, case, gen, w):
             ex, ey = px * EPD / 2, py * EPD / 2
             # rounding of the direction cosines is magnified by the distance to the pupil plane (nearly
             # telecentric lenses have their entrance pupil kilometres away)
-            far = 1e-13 * abs(s)
+            far = 2e-12 * abs(s)
             if vx == 0 and vy == 0:
                 if abs(A[0] - ex) > 1e-8 * max(1, abs(EPD)) + far or abs(A[1] - ey) > 1e-8 * max(1, abs(EPD)) + far:
                     ctx.fail('ray is aimed at (Px,Py) x EPD/2 on the entrance pupil plane', case,
